@@ -296,27 +296,59 @@ func crpScenario() engine.Scenario {
 }
 
 // ---------------------------------------------------------------------------------------------
-// EvaluationKey.Expand: the expanded mask is the one the key generator used
+// EvaluationKey.Expand: the expanded mask is the one the key generator used, for every key parameterisation
+// (levelQ, levelP incl. -1 and every intermediate level, power-of-two base, with / without caller buffer, evaluation and
+// relinearization keys, parameters with 2 / 3 / no auxiliary primes)
+
+func expandParams(k int) rlwe.Parameters {
+	lit := rlwe.ParametersLiteral{LogN: 4, Q: mixedChain().mod, P: pChain(), NTTFlag: true}
+	switch k {
+	case 1:
+		m := ref.PrimesNear(1<<40, 2*N, 7, true)
+		lit.Q, lit.P = m[:4], m[4:7]
+	case 2:
+		lit.P = nil
+	}
+	key := fmt.Sprint("expand", k)
+	if p, ok := rlweCache[key]; ok {
+		return p
+	}
+	p, err := rlwe.NewParametersFromLiteral(lit)
+	if err != nil {
+		panic(err)
+	}
+	rlweCache[key] = p
+	return p
+}
+
+var rlweCache = map[string]rlwe.Parameters{}
 
 func expandScenario() engine.Scenario {
 	name := "repro/EvaluationKey.Expand"
 	return engine.Scenario{Name: name, Bound: -1, Fn: func(c *engine.Chooser) {
-		lq := c.Choose(3, "levelQ")
-		lp := c.Choose(3, "levelP+1") - 1
-		b2 := []int{0, 16}[c.Choose(2, "base2")]
+		pk := c.Choose(3, "parameters") // 0: 3 Q + 2 P; 1: 4 Q + 3 P (three intermediate levelP); 2: no P
+		params := expandParams(pk)
+		lq := c.Choose(params.MaxLevelQ()+1, "levelQ")
+		lp := c.Choose(params.MaxLevelP()+2, "levelP+1") - 1
+		b2 := []int{0, 1, 2, 7, 16, 30}[c.Choose(6, "base2")]
 		withBuffer := c.Choose(2, "buffer") == 1
-		if lp > 0 {
-			b2 = 0
+		relin := c.Choose(2, "key-type") == 1 // EvaluationKey (s' -> s) or RelinearizationKey (s^2 -> s)
+		if lp > 0 && b2 != 0 {
+			c.Skip("power-of-two decomposition only with at most one auxiliary prime")
+			return
 		}
-		if lp == -1 && b2 == 0 {
-			b2 = 16 // (no P, no power-of-two decomposition) only changes the key shape; keep one shape per choice
-		}
-		uni.Seed(c, name, lq, lp, b2)
-		params := crpParams()
+		uni.Seed(c, name, pk, lq, lp, b2, relin)
 		kgen := rlwe.NewKeyGenerator(params)
 		skIn, skOut := kgen.GenSecretKeyNew(), kgen.GenSecretKeyNew()
 		evkp := rlwe.EvaluationKeyParameters{LevelQ: &lq, LevelP: &lp, BaseTwoDecomposition: &b2, Compressed: true}
-		evk := kgen.GenEvaluationKeyNew(skIn, skOut, evkp)
+		var evk *rlwe.EvaluationKey
+		if relin {
+			skIn = skOut.CopyNew()
+			params.RingQ().MulCoeffsMontgomery(skOut.Value.Q, skOut.Value.Q, skIn.Value.Q) // s^2 in NTT + Montgomery form
+			evk = &kgen.GenRelinearizationKeyNew(skOut, evkp).EvaluationKey
+		} else {
+			evk = kgen.GenEvaluationKeyNew(skIn, skOut, evkp)
+		}
 		if !evk.IsCompressed() || evk.Seed == nil {
 			c.Fail("C17/expand/not-compressed", "GenEvaluationKeyNew(Compressed) returned degree %d seed=%v", evk.Degree(), evk.Seed != nil)
 			return
@@ -389,8 +421,10 @@ func expandScenario() engine.Scenario {
 			}
 		}
 		c.Cover("expand", fmt.Sprintf("levelP=%d", lp))
-		c.State("expand", lq, lp, b2, withBuffer)
-		c.Outcome(name, lq, lp, b2, withBuffer)
+		c.Cover("expand-params", fmt.Sprint(pk))
+		c.Cover("expand-relin", fmt.Sprint(relin))
+		c.State("expand", pk, lq, lp, b2, withBuffer, relin)
+		c.Outcome(name, pk, lq, lp, b2, withBuffer, relin)
 	}}
 }
 
@@ -554,5 +588,73 @@ func prngReusedBufferScenario() engine.Scenario {
 		c.Cover("prng-reused-buffer", fmt.Sprint(parties))
 		c.State("prng-reused-buffer", parties, keyLen, final, order)
 		c.Outcome(name, parties, keyLen, final, order, engine.Hash(first[0]))
+	}}
+}
+
+// ---------------------------------------------------------------------------------------------
+// sequences of SampleCRP calls of different protocol types on ONE common reference string: two parties performing the
+// same sequence obtain the same CRPs, and each CRP is what a fresh specification sampler draws from the CRS at that point
+// (each SampleCRP builds a new sampler with fresh buffers on the shared CRS).
+
+var crpKinds = []string{"PublicKeyGen", "EvaluationKeyGen(lq=1,lp=0,base2=16)", "GaloisKeyGen(lq=2,lp=1)", "RelinearizationKeyGen(lq=0,lp=-1,base2=7)", "KeySwitch(level=1)"}
+
+func crpSequenceScenario(depth int) engine.Scenario {
+	name := "repro/multiparty-SampleCRP-sequences"
+	return engine.Scenario{Name: name, Bound: -1, Fn: func(c *engine.Chooser) {
+		params := crpParams()
+		n := 2 + c.Choose(depth-1, "length")
+		seq := make([]int, n)
+		for i := range seq {
+			seq[i] = c.Choose(len(crpKinds), "protocol")
+		}
+		ip := func(v int) *int { return &v }
+		run := func(crs multiparty.CRS, kind int) ([]ringqp.Poly, int, int) {
+			switch kind {
+			case 0:
+				return []ringqp.Poly{multiparty.NewPublicKeyGenProtocol(params).SampleCRP(crs).Value}, 2, 1
+			case 1:
+				return flatten(multiparty.NewEvaluationKeyGenProtocol(params).SampleCRP(crs, rlwe.EvaluationKeyParameters{LevelQ: ip(1), LevelP: ip(0), BaseTwoDecomposition: ip(16)}).Value), 1, 0
+			case 2:
+				return flatten(multiparty.NewGaloisKeyGenProtocol(params).SampleCRP(crs, rlwe.EvaluationKeyParameters{LevelQ: ip(2), LevelP: ip(1)}).Value), 2, 1
+			case 3:
+				return flatten(multiparty.NewRelinearizationKeyGenProtocol(params).SampleCRP(crs, rlwe.EvaluationKeyParameters{LevelQ: ip(0), LevelP: ip(-1), BaseTwoDecomposition: ip(7)}).Value), 0, -1
+			default:
+				ks, err := multiparty.NewKeySwitchProtocol(params, ring.DiscreteGaussian{Sigma: 3.2, Bound: 19.2})
+				if err != nil {
+					panic(err)
+				}
+				return []ringqp.Poly{{Q: ks.SampleCRP(1, crs).Value}}, 1, -1
+			}
+		}
+		key := baseKeys()[1]
+		crsA, crsB, src := mustKeyed(key), mustKeyed(key), mustKeyed(key)
+		for step, kind := range seq {
+			a, lq, lp := run(crsA, kind)
+			b, _, _ := run(crsB, kind)
+			if len(a) != len(b) || len(a) == 0 {
+				c.Fail("C17/repro/SampleCRP/shape", "step %d %s: %d vs %d polynomials", step, crpKinds[kind], len(a), len(b))
+				return
+			}
+			mQ, mP := &refUniform{src: src}, &refUniform{src: src} // a new sampler per SampleCRP call
+			for i := range a {
+				if !polyEq(a[i].Q, b[i].Q, lq) || (lp >= 0 && !polyEq(a[i].P, b[i].P, lp)) {
+					c.Fail("C17/repro/SampleCRP/equal-keys-different-crp", "step %d %s polynomial %d differs between two parties performing the same call sequence on the same CRS key", step, crpKinds[kind], i)
+					return
+				}
+				if ok, why := rowsEqual(a[i].Q.Coeffs, mQ.sample(params.Q(), lq), lq); !ok {
+					c.Fail("C17/repro/SampleCRP/differs-from-specification-sampler", "sequence %v step %d %s polynomial %d Q part: %s", seq, step, crpKinds[kind], i, why)
+					return
+				}
+				if lp >= 0 {
+					if ok, why := rowsEqual(a[i].P.Coeffs, mP.sample(params.P(), lp), lp); !ok {
+						c.Fail("C17/repro/SampleCRP/differs-from-specification-sampler", "sequence %v step %d %s polynomial %d P part: %s", seq, step, crpKinds[kind], i, why)
+						return
+					}
+				}
+			}
+			c.State("crp-sequence", step, kind, hashPoly(a[0].Q, lq))
+			c.Cover("crp-sequence", crpKinds[kind])
+		}
+		c.Outcome(name, fmt.Sprint(seq))
 	}}
 }
